@@ -498,6 +498,8 @@ class World:
                     setattr(self._walk(cfg, p), k, val)
                 else:
                     cfg[".".join(list(p) + [k])] = val
+            elif op == "SetDictItem":
+                cfg[".".join(list(seq(ev["p"])) + [ev["k"], "".join(seq(ev["dk"]))])] = value_to_py(cinco, ev["v"], None, self.root)
             elif op == "Ctor":
                 kw = {k: value_to_py(cinco, v, None, self.root) for k, v in seq(ev["kw"])}
                 new = self.schema(**kw)
@@ -648,7 +650,7 @@ class Adapter:
             # (which validators ran before a failure is not pinned by C11: compared on success only)
             out["vlog"] = r["vlog"]
         if getattr(self, "focus", None) == "C15" and r["out"] == "ValidationError" and (
-            ev["op"] in ("SetAttr", "SetItem", "Ctor", "Load") or (ev["op"] == "COp" and ev["o"]["m"] in ("append", "extend", "iadd", "item_set"))
+            ev["op"] in ("SetAttr", "SetItem", "SetDictItem", "Ctor", "Load") or (ev["op"] == "COp" and ev["o"]["m"] in ("append", "extend", "iadd", "item_set"))
         ):
             # the reference path the error names (C15 compares it with the specification's)
             out["errpath"] = r.get("errpath") or ""
